@@ -237,12 +237,29 @@ fn push(s: &mut State, mut e: Event) {
 
 pub struct Ledger;
 
+/// Called at the start of every allocation (0) / deallocation (1) made inside an operation
+/// window, before the ledger changes: the concurrent harness turns these into scheduling points
+/// (a thread can be pre-empted between an atomic operation and the copy that follows it).
+static ALLOC_HOOK: AtomicUsize = AtomicUsize::new(0);
+pub fn set_alloc_hook(f: Option<fn(u8)>) {
+    ALLOC_HOOK.store(f.map(|f| f as usize).unwrap_or(0), Ordering::SeqCst);
+}
+#[inline]
+fn alloc_hook(kind: u8) {
+    let f = ALLOC_HOOK.load(Ordering::Relaxed);
+    if f != 0 {
+        let f: fn(u8) = unsafe { std::mem::transmute(f) };
+        f(kind);
+    }
+}
+
 unsafe impl GlobalAlloc for Ledger {
     unsafe fn alloc(&self, layout: Layout) -> *mut u8 {
         let w = window();
         if w == 0 {
             return System.alloc(layout);
         }
+        alloc_hook(0);
         let size = layout.size();
         let align = layout.align();
         let par = if align == 1 { PARITY.load(Ordering::Relaxed) } else { 2 };
@@ -356,6 +373,9 @@ unsafe impl GlobalAlloc for Ledger {
 
     unsafe fn dealloc(&self, ptr: *mut u8, layout: Layout) {
         let addr = ptr as usize;
+        if window() != 0 {
+            alloc_hook(1);
+        }
         let _g = Guard::take();
         let s = st();
         // exact live base?
